@@ -512,7 +512,9 @@ class TypeInfer:
                     if e.attr in k.methods:
                         cands.append(k.methods[e.attr])
                         break
-                for k in c.all_subclasses():
+                # a class named explicitly (`_parser.parse(...)`) is exact; self/cls/instances dispatch virtually
+                exact = t.startswith("K:") and isinstance(e.value, ast.Name) and e.value.id not in ("cls", "self")
+                for k in c.all_subclasses() if not exact else ():
                     if e.attr in k.methods:
                         cands.append(k.methods[e.attr])
                 for m in cands:
